@@ -1489,7 +1489,19 @@ func (a *adversary) onNewView(nd *Node, to hotstuff.ID, si *hotstuff.SyncInfo) b
 	if has(acts, "aggreplay") && len(a.aggs) > 0 && a.chance(0.7) {
 		// an aggregate certificate seen earlier, replayed as is or with its view or one per-signer QC altered
 		agg := a.aggs[a.intn(len(a.aggs))]
-		switch a.intn(5) {
+		switch a.intn(7) {
+		case 5, 6:
+			// one signature entry more than QC entries: the Byzantine replica's own signature (over its own timeout
+			// message) is added to the aggregate signature, but the map gets no QC for it
+			if _, listed := agg.QCs()[nd.id]; !listed {
+				own := a.ownSig(nd, hotstuff.TimeoutMsg{ID: nd.id, View: agg.View(), SyncInfo: hotstuff.NewSyncInfoWith(nd.states.HighQC())}.ToBytes())
+				if own != nil {
+					if sig := replaceSigner(agg.Sig(), nd.id, own); sig != nil {
+						agg = hotstuff.NewAggregateQC(agg.QCs(), sig, agg.View())
+						a.fired("aggreplay-extra-signature")
+					}
+				}
+			}
 		case 3, 4:
 			// the same signature over a padded batch: an extra per-replica QC for somebody who did not sign
 			qcs := map[hotstuff.ID]hotstuff.QuorumCert{}
